@@ -180,3 +180,17 @@ case(O + "side_in_marks", params={"p": Ref("OSide"), "marks": _Set(STR), "table"
      canaries={"two": "result == 2", "zero": "result == 0"},
      gen=lambda rng: {"s": rng.choice(["a", "m", ["x"]]), "marks": ["m"], "table": {"m": 5}},
      build=lambda d: {"p": mk_side(d["s"]), "marks": set(d["marks"]), "table": d["table"]})
+
+# ---- functools.cached_property under contract: read like a property (round 4) ------------------------------------------------------
+cls("OScaler", fields={"k": INT}, repo=O + "OScaler")
+case(O + "OScaler.scale", params={"self": Ref("OScaler"), "x": INT}, returns=INT, ensures={"v": "result == self.k * x"}, canaries={"x": "result == x"},
+     gen=lambda rng: {"k": rng.randint(2, 4), "x": rng.randint(1, 5)}, build=lambda d: {"self": M.OScaler(d["k"]), "x": d["x"]})
+case(O + "OScaler.__init__", params={"self": Ref("OScaler"), "k": INT}, modifies=["self.k"], ensures={"k": "self.k == k"}, canaries={"z": "self.k == 0"},
+     gen=lambda rng: {"k": rng.randint(1, 5)}, build=lambda d: {"self": M.OScaler.__new__(M.OScaler), "k": d["k"]})
+case(O + "OPair.scaler", params={"self": Ref("OPair")}, returns=Ref("OScaler"), ensures={"k": "result.k == self.a", "new": "fresh(result)"},
+     canaries={"b": "result.k == self.b"},
+     gen=lambda rng: {"a": rng.randint(0, 20), "b": 21}, build=lambda d: {"self": M.OPair(d["a"], d["b"])},
+     call=lambda fn, a: fn.func(a["self"]))
+case(O + "use_cached", params={"p": Ref("OPair"), "x": INT}, returns=INT,
+     ensures={"v": "result == p.a * x + p.a"}, canaries={"b": "result == p.b * x + p.b"},
+     gen=lambda rng: {"a": rng.randint(0, 5), "b": 7, "x": rng.randint(0, 3)}, build=lambda d: {"p": M.OPair(d["a"], d["b"]), "x": d["x"]})
